@@ -256,6 +256,24 @@ class Intervals:
         if k == "un":
             return None
         if k == "discr":
+            # discriminant of a workspace enum: range of its declared discriminants
+            pl = rv[1]
+            tix = None
+            for e in reversed(pl[1]):
+                if isinstance(e, list) and e[0] == "f":
+                    tix = e[4]
+                    break
+            if tix is None and not [e for e in pl[1] if e != "*"]:
+                tix = self.body.locals[pl[0]][0]
+                ty = self.body.types[tix]
+                while ty.get("k") == "ref":
+                    ty = self.body.types[ty["e"]]
+            else:
+                ty = self.body.types[tix] if tix is not None else {}
+            if ty.get("k") == "adt" and ty["d"] in self.prog.adts:
+                ds = [v["discr"] for v in self.prog.adts[ty["d"]]["variants"] if v["discr"] is not None]
+                if ds:
+                    return (min(ds), max(ds))
             return None
         return None
 
